@@ -65,5 +65,6 @@ def main(tier, seed):
 
 
 def replay(rep_json):
-    print("replay: instances are deterministic; re-run ./check C20")
-    return 2
+    from framework.props import _modelprop
+
+    return _modelprop.replay_job("C20", rep_json, "framework.props.shippedrun", "replay_shipped", mode="jit")
